@@ -163,6 +163,9 @@ def _gen_session(wl, plan, s, plots):
             ops.append({'fn': 'cyclepoints', 'sig': sig, 'fe': wl.choice((None, 'FE0', 'FE1'))})
             avail.append({'name': rname_prev(s, ops), 'kind': 'samples', 'sig': sig, 'center': 'peak',
                           'samples': True})
+        elif r < 0.425:
+            ops.append({'fn': 'flankzx', 'sig': sig, 'flank': wl.choice(('rise', 'decay')),
+                        'midpoint': wl.choice((None, None, 0.3))})
         elif r < 0.46:
             op = {'fn': 'extrema', 'sig': sig, 'boundary': wl.choice((0, 0, 3)), 'fk': wl.choice((None, 'FK0'))}
             if wl.random() < 0.3:
@@ -478,6 +481,10 @@ def build_call(op, get, band):
         if 'pad' in op:
             kw['pad'] = op['pad']
         return CP.find_extrema, (get(op['sig']), fs, f_range), kw
+    if fn == 'flankzx':
+        import bycycle.cyclepoints.zerox as ZX
+        return ZX.find_flank_zerox, (get(op['sig']), op['flank']), (
+            {} if op.get('midpoint') is None else {'midpoint': op['midpoint']})
     if fn == 'zerox':
         e = get(op['ext'])
         return CP.find_zerox, (get(op['sig']), e[0], e[1]), {}
